@@ -455,14 +455,18 @@ BlockedSenderWakes == \A s \in Senders : (spc[s] = "wait") ~> (spc[s] # "wait" \
 
 -----------------------------------------------------------------------------
 (* spec -> code: one REPLAY line per transition *)
-EmitReplay ==
-    Emit => PrintT(<<"REPLAY", ToJson([steps |-> hist',
+ReplayLine ==
+    PrintT(<<"REPLAY", ToJson([steps |-> hist',
         fin |-> [sres |-> sres', fret |-> fret', ffired |-> ffired',
                  terminal |-> (rpc' = "done" /\ ~senderAlive'),
                  metrics |-> [queue_full_truncated |-> mTrunc', queue_full_blocked |-> mBlocked',
                               queue_batch_processed |-> mProcessed', queue_batch_failed |-> mFailed',
                               queue_batch_panicked |-> mPanicked', queue_batch_retry |-> mRetry',
                               queue_length |-> Len(pending')]]])>>)
+EmitReplay == Emit => ReplayLine
+\* simulation mode: one line per behaviour, when it terminates or reaches the depth bound
+SimDepth == 60
+EmitAtEnd == (rpc' = "done" \/ Len(hist') >= SimDepth) => ReplayLine
 
 ASSUME PrintT(<<"CONFIG", ToJson([senderOps |-> SenderOps, flusherOps |-> FlusherOps,
                                    cap |-> Cap, maxRetry |-> MaxRetry])>>)
